@@ -11,9 +11,20 @@ THEOREMS = ("C19_memory_refines_nested_dict / C19_sqlite_refines_nested_dict / C
             "C19_snapshot_isolated_memory / C19_snapshot_isolated_sqlite")
 
 
+def same(x, y):
+    """Equality of JSON values that keeps bool, int and float apart (Python's == has 1 == True == 1.0)."""
+    if type(x) is not type(y):
+        return False
+    if isinstance(x, (list, tuple)):
+        return len(x) == len(y) and all(same(p, q) for p, q in zip(x, y))
+    if isinstance(x, dict):
+        return x.keys() == y.keys() and all(same(v, y[k]) for k, v in x.items())
+    return x == y
+
+
 def first_diff(a, b):
     for i, (x, y) in enumerate(zip(a, b)):
-        if x != y:
+        if not same(x, y):
             return i
     return None if len(a) == len(b) else min(len(a), len(b))
 
@@ -33,7 +44,7 @@ def judge(chain, ops, res):
     intkey = S.has_marker([om, fm[1], osq, fs[1]])
     for name, obs, f in (("memory", om, fm), ("sqlite", osq, fs)):
         j = first_diff(obs, oo)
-        if j is None and f == fin:
+        if j is None and same(f, fin):
             continue
         if intkey:
             key = "C19/numeric-first-segment-int-key"
